@@ -35,7 +35,7 @@ var RawStrings = []string{"``", "`a`", "`a\nb`", "`a\r\nb`", "`\\n`", "`\"`", "`
 
 var Comments = []string{"//c", "// c d", "//", "/*c*/", "/**/", "/*c\nd*/", "/* c\r\nd */", "//c\r", "/*c", "//go:build x", "//line f:1"}
 
-var SharpComments = []string{"#c", "# c d", "#", "#!x"}
+var SharpComments = []string{"#c", "# c d", "#", "#!x", "#*line ", "#*line f:1", "#/line f:1", "#line 5", "#*c*/", "#*"}
 
 var XGoLits = []string{"1r", "1.5r", "10m", "5s", "2.5h", "3ms", "c\"x\"", "C\"x\"", "py\"x\"", "1kb", "7d", "0x1r", "1e3r"}
 
